@@ -1,0 +1,38 @@
+// Copyright 2026 Dolthub, Inc.
+//
+// Licensed under the Apache License, Version 2.0 (the "License");
+// you may not use this file except in compliance with the License.
+// You may obtain a copy of the License at
+//
+//     http://www.apache.org/licenses/LICENSE-2.0
+//
+// Unless required by applicable law or agreed to in writing, software
+// distributed under the License is distributed on an "AS IS" BASIS,
+// WITHOUT WARRANTIES OR CONDITIONS OF ANY KIND, either express or implied.
+// See the License for the specific language governing permissions and
+// limitations under the License.
+
+//go:build verif
+
+package binlogreplication
+
+import (
+	"fmt"
+
+	"github.com/dolthub/go-mysql-server/sql"
+)
+
+// Accessors used by the /verif correspondence harness (property C40).
+// Add-only; compiled only with -tags verif.
+
+// VerifSerialize serializes |value| of type |typ| with the binlog type serializer registered for the type
+// and returns the bytes together with the binlog type id and metadata the TABLE_MAP event would carry.
+func VerifSerialize(ctx *sql.Context, typ sql.Type, value interface{}) (data []byte, binlogType byte, metadata uint16, err error) {
+	s, ok := typeSerializersMap[typ.Type()]
+	if !ok {
+		return nil, 0, 0, fmt.Errorf("no serializer for %s", typ.String())
+	}
+	binlogType, metadata = s.metadata(ctx, typ)
+	data, err = s.serialize(ctx, typ, value, nil)
+	return data, binlogType, metadata, err
+}
